@@ -702,6 +702,12 @@ class C11:
             ids += [(s, pyc.API[s]), (s, pyc.API_BLIND[s]), (s, b"BLIND_" + pyc.API_BLIND[s])]
         shared = P.rb(rng, 24)
         ids += [("sha", b""), ("shake", b""), ("shake", b"x"), ("sha", b"x"), ("sha", shared), ("shake", shared), ("sha", P.rb(rng, 40))]
+        # api_ids are OCTET strings: pairs that differ only in octets that are not valid UTF-8 (0xff / 0xfe, a lone continuation octet,
+        # the replacement character itself), in letter case, or by a trailing NUL must give disjoint generator sets like any other pair
+        for s in P.SUITES:
+            ids += [(s, pyc.API[s][:-9] + b"\xff" + pyc.API[s][-9:]), (s, pyc.API[s][:-9] + b"\xfe" + pyc.API[s][-9:]),
+                    (s, pyc.API[s][:-9] + b"\xef\xbf\xbd" + pyc.API[s][-9:])]
+        ids += [("sha", b"\x80"), ("sha", b"\xef\xbf\xbd"), ("sha", b"\xc0"), ("sha", b"X"), ("sha", b"x\x00"), ("sha", b"\x00")]
         # an ABSENT api_id is the empty one: same generators as Some(b""), disjoint from every interface's
         absent = {}
         for s_ in P.SUITES:
